@@ -17,8 +17,7 @@ LEVEL_TEXT = ("Coq theorems (abstract ordered field with conjugation, every leng
 TRUSTED = ["Coq 8.16.1 kernel + vm_compute", "hand-written model coq/Model/Ls.v, coq/Model/Corr.v (tie = correspondence run)",
            "scipy.linalg.lstsq is specified (returns a solution of the normal equations), not verified; numpy QR/SVD in the search oracles",
            "Python harness"]
-UNPROVED = ["arcovar_marple / modcovar_marple equal the least-squares solution and e/(N-p), e/(2(N-p)): TEST only — their executable model (Model/CovarMarple.v, tied to the code by correspondence) is compared with the exact LS model at zero tolerance on every generated case, and the implementation is compared in the search (tolerance 1e-11*cond^2)",
-            "completeness of the executable solver ls_solve (returns Some for non-singular normal equations): correspondence only"]
+UNPROVED = ["arcovar_marple / modcovar_marple equal the least-squares solution and e/(N-p), e/(2(N-p)): TEST only — their executable model (Model/CovarMarple.v, tied to the code by correspondence) is compared with the exact LS model at zero tolerance on every generated case, and the implementation is compared in the search (tolerance 1e-11*cond^2)"]
 ASSUMPTIONS = ["exact arithmetic", "N - p >= p and full column rank where uniqueness / exact recovery is claimed",
                "lstsq returns a solution of the normal equations (always true of a least-squares solver, also when rank-deficient)"]
 RULE = ("exact in Coq: real/complex low-bit dyadic data (noise, 4th-root-of-unity exponentials with and without noise, scaled by 2^k), N=4..16, "
